@@ -516,9 +516,13 @@ func (s *client) GetVBucketSeqNos(awareCollection bool) (*wrapper.ConcurrentSwis
 						}
 					}
 
+					var callbackErr error
+
 					op, err := s.dcpAgent.GetVbucketSeqnos(
 						i, memd.VbucketStateActive, opts,
 						func(entries []gocbcore.VbSeqNoEntry, err error) {
+							callbackErr = err
+
 							for _, entry := range entries {
 								if seqNo, exist := seqNos.Load(entry.VbID); !exist || (exist && uint64(entry.SeqNo) > seqNo) {
 									seqNos.Store(entry.VbID, uint64(entry.SeqNo))
@@ -531,7 +535,12 @@ func (s *client) GetVBucketSeqNos(awareCollection bool) (*wrapper.ConcurrentSwis
 					if err != nil {
 						return err
 					}
-					return opm.Wait(op, err)
+
+					if err = opm.Wait(op, err); err != nil {
+						return err
+					}
+
+					return callbackErr
 				}
 			}(i, j))
 		}
